@@ -126,6 +126,94 @@ Definition agg_spec_check (c : agg_case) : bool :=
       | _, _ => true
       end).
 
+(* ---- large cubes (an extent product at the 65535 / 65536 mintype boundary): sparse evaluation ----
+   Beyond TABLE_LIMIT cells the cubes are not tabulated.  The cells examined are the cells the
+   implementation reported as different from the default row (missing / the plain value) and the
+   cell of every input row; every other cell holds no row.
+     array cube: the MODEL itself, evaluated at those flat indices ([seg] of any other index is
+       empty, so the model's row there is its row for no rows, which must be the default);
+     index cube: the right-hand side of theorem FFuncsProofs.ccube_agg_direct (the specification on
+       the rows of the cell), demanding the theorem's hypotheses dim_wf_b / covers_b - the functional
+       region model recomputes every differencing sum on each lookup and cannot be tabulated here. *)
+Definition TABLE_LIMIT : Z := 1024.
+Definition big_case (c : agg_case) : bool :=
+  (TABLE_LIMIT <? prodZ (c_cshape c)) || (TABLE_LIMIT <? prodZ (c_xshape c)).
+
+Fixpoint flat_index (shape cell : list Z) : Z :=
+  match shape, cell with e :: s, x :: cs => x * prodZ s + flat_index s cs | _, _ => 0 end.
+Fixpoint unflat (shape : list Z) (u : Z) : list Z :=
+  match shape with [] => [] | e :: s => (u / prodZ s) :: unflat s (u mod prodZ s) end.
+
+(* one cell's row of reported values from its (value, missing) pairs / partial counts *)
+Definition report_row (c : agg_case) (vms : list (Qc * bool)) : list rcell :=
+  match c_agg c with
+  | AValidCount => if is_plain0 (c_fmt c) then map (fun vm => RVal (fst vm)) vms else map (report (c_fmt c)) vms
+  | _ => map (report (c_fmt c)) vms
+  end.
+Definition spec_row (c : agg_case) (rows : list Z) : list rcell :=
+  report_row c (map (fun fx => direct_cell (w_get (c_w c)) fx (c_agg c) (c_ign c) rows) (fact_cols (c_fact c))).
+Definition x_model_row (c : agg_case) (p : xpath) (rows : list Z) : list rcell :=
+  let nw := norm_w h_eval (c_w c) in
+  match c_agg c with
+  | AValidCount =>
+      if is_plain0 (c_fmt c) then map RVal (x_cols_plain0 (c_fact c) nw rows)
+      else map (report (c_fmt c)) (x_cols AValidCount h_eval (c_fact c) nw p (c_ign c) (lenZ rows) rows)
+  | A => map (report (c_fmt c)) (x_cols A h_eval (c_fact c) nw p (c_ign c) (lenZ rows) rows)
+  end.
+
+Definition row_matches_obs (exact : bool) (row : list rcell) (o : list (option Qc)) : bool :=
+  list_eqb (oq_close exact) (map rcell_obs row) o.
+Definition in_range_b (size u : Z) : bool := (0 <=? u) && (u <? size).
+
+Definition xcube_sparse_check (c : agg_case) : bool :=
+  let exact := negb (is_mean (c_agg c)) in
+  let size := prodZ (c_xshape c) in
+  let p := path_of (c_agg c) (c_fact c) in
+  match c_obs_x c, xcoords (c_xshape c) (map arr_cat (c_arrs c)) with
+  | OSkip, _ => true
+  | OExc, XTooBig => true
+  | OExc, XCoords co => match p with PBins => false | _ => negb (bincount_ok (crows (c_N c) co) size) end
+  | OCells d cells, XCoords co =>
+      let cr := crows (c_N c) co in
+      (match p with PBins => true | _ => bincount_ok cr size end)
+      && forallb (fun kv => in_range_b size (fst kv)) cells
+      && forallb (fun u => row_matches_obs exact (x_model_row c p (seg cr u)) (lookup u cells d)
+                           && list_eqb rcell_eqb (x_model_row c p (seg cr u))
+                                       (spec_row c (cell_rows_f (c_N c) (map arr_cat (c_arrs c)) (unflat (c_xshape c) u))))
+                 (map fst cells ++ filter (in_range_b size) (map snd cr))
+      && row_matches_obs exact (x_model_row c p []) d
+  | _, _ => false
+  end.
+
+Definition ccube_sparse_check (c : agg_case) : bool :=
+  let exact := negb (is_mean (c_agg c)) in
+  let dims := map mkdim (c_dims c) in
+  let shape := c_cshape c in
+  let size := prodZ shape in
+  match c_obs_c c with
+  | OSkip => true
+  | OExc => negb (cube_ok shape dims)
+  | OCells d cells =>
+      cube_ok shape dims && covers_b shape dims
+      && forallb (fun kv => in_range_b size (fst kv)) cells
+      && forallb (fun u => row_matches_obs exact (spec_row c (cell_rows (c_N c) dims (unflat shape u))) (lookup u cells d))
+                 (map fst cells ++ map (fun r => flat_index shape (map (fun dm => dim_dense dm r) dims)) (rowrange (c_N c)))
+      && row_matches_obs exact (spec_row c []) d
+  end.
+
+Definition agg_sparse_check (c : agg_case) : bool :=
+  let dims := map mkdim (c_dims c) in
+  forallb (dim_wf_b (c_N c)) dims
+  && (match c_obs_c c with OSkip => true | _ => same_data (c_N c) dims (c_arrs c) end)
+  && (if c_cinferred c then zlist_eqb (infer_shape dims) (c_cshape c) else true)
+  && (if c_xinferred c then zlist_eqb (xinfer_shape (c_arrs c)) (c_xshape c) else true)
+  && ccube_sparse_check c && xcube_sparse_check c.
+
+(* the check the harness runs *)
+Definition agg_check_any (c : agg_case) : bool :=
+  if big_case c then agg_sparse_check c else agg_check c && agg_spec_check c.
+
 Definition agg_explain (c : agg_case) :=
+  if big_case c then (ccube_sparse_check c, xcube_sparse_check c, None, None) else
   (forallb (dim_wf_b (c_N c)) (map mkdim (c_dims c)), same_data (c_N c) (map mkdim (c_dims c)) (c_arrs c),
    ccube_model c, xcube_model c).
